@@ -150,6 +150,7 @@ inline void disarm_budget() { budget().armed = false; budget().st = nullptr; }
 inline void check_budget() {
     budget_t& b = budget();
     if (!b.armed || !b.st) return;
+    if (b.st->zero_eof > b.max_eof || b.st->work > b.max_bytes) vh::on_death();     // counters of the cases completed so far
     if (b.st->zero_eof > b.max_eof)
         vh::fatal_monitor(vh::cat("hang.eof-spin.", b.dev, ".", b.entry),
                           vh::cat(b.fmt, " via ", b.dev, " ", b.entry, ": ", b.st->zero_eof, " reads returned nothing at EOF (budget ", b.max_eof,
